@@ -17,7 +17,7 @@ Reset == /\ IsEvent("reset")
          /\ left' = [t \in Threads |-> NAlloc] /\ issued' = <<>>
          /\ ctr' = Rec[l].ctr /\ rpc' = [t \in RefThreads |-> 0] /\ rwords' = [t \in RefThreads |-> <<>>]
          /\ rleft' = [t \in RefThreads |-> NRef] /\ rissued' = <<>>
-         /\ origin' = <<Rec[l].id, Rec[l].serial>>
+         /\ origin' = <<Rec[l].id, Rec[l].serial>> /\ nset' = 0 /\ epoch' = 0
 TCall == IsEvent("call") /\ Call(T)
 TLocked == IsEvent("locked") /\ Acquire(T)
 TLoadId == /\ IsEvent("loaded_id")
@@ -34,6 +34,11 @@ TStoreNext == IsEvent("stored_next") /\ StoreNext(T) /\ nextId' = Rec[l].next
 TReturn == IsEvent("return") /\ Return(T) /\ issued'[Len(issued')] = <<Rec[l].id, Rec[l].serial, Rec[l].creation>>
 \* the thread found the mutex taken: the spec agrees that somebody else holds it
 TBlocked == IsEvent("blocked") /\ pc[T] = "probe" /\ (LockEnforced => lock \notin {None, T}) /\ UNCHANGED vars
+\* set_creation (made by the driver while no allocation is in progress); the counters read back after the call are logged
+TSetCreation == IsEvent("set_creation") /\ SetCreation(Rec[l].creation) /\ nextId' = Rec[l].id /\ nextSerial' = Rec[l].serial
+OSetCreation == /\ IsEvent("set_creation") /\ creation' = Rec[l].creation /\ nset' = nset + 1 /\ epoch' = Len(issued)
+                /\ nextId' = Rec[l].id /\ nextSerial' = Rec[l].serial /\ origin' = <<Rec[l].id, Rec[l].serial>>
+                /\ UNCHANGED <<lock, pc, lid, lser, left, issued, rvars>>
 TRefCall == IsEvent("ref_call") /\ UNCHANGED vars
 TRefWord == IsEvent("ref_word") /\ RefWord(T) /\ ctr = Rec[l].w
 TRefReturn == IsEvent("ref_return") /\ RefReturn(T)
@@ -41,10 +46,10 @@ TRefReturn == IsEvent("ref_return") /\ RefReturn(T)
 OCall == IsEvent("call") /\ pc' = [pc EXCEPT ![T] = "probe"] /\ UNCHANGED <<nextId, nextSerial, creation, lock, lid, lser, left, issued, rvars>>
 OReturn == IsEvent("return") /\ pc' = [pc EXCEPT ![T] = "idle"] /\ issued' = Append(issued, <<Rec[l].id, Rec[l].serial, Rec[l].creation>>)
            /\ UNCHANGED <<nextId, nextSerial, creation, lock, lid, lser, left, rvars>>
-OOther == l <= Len(Rec) /\ Rec[l].ev \notin {"reset", "call", "return"} /\ l' = l + 1 /\ UNCHANGED vars
-ObservedNext == Reset \/ ((OCall \/ OReturn \/ OOther) /\ UNCHANGED origin)
-StrictNext == Reset \/ ((TCall \/ TLocked \/ TLoadId \/ TLoadSer \/ TStoreOne \/ TFetchAdd \/ TStoreNext \/ TReturn \/ TBlocked
-                         \/ TRefCall \/ TRefWord \/ TRefReturn) /\ UNCHANGED origin)
+OOther == l <= Len(Rec) /\ Rec[l].ev \notin {"reset", "call", "return", "set_creation"} /\ l' = l + 1 /\ UNCHANGED vars
+ObservedNext == Reset \/ OSetCreation \/ ((OCall \/ OReturn \/ OOther) /\ UNCHANGED <<origin, nset, epoch>>)
+StrictNext == Reset \/ TSetCreation \/ ((TCall \/ TLocked \/ TLoadId \/ TLoadSer \/ TStoreOne \/ TFetchAdd \/ TStoreNext \/ TReturn \/ TBlocked
+                         \/ TRefCall \/ TRefWord \/ TRefReturn) /\ UNCHANGED <<origin, nset, epoch>>)
 TraceNext == IF Observed THEN ObservedNext ELSE StrictNext
 TraceSpec == TraceInit /\ [][TraceNext]_tvars
 TraceAccepted == LET d == TLCGet("stats").diameter IN
